@@ -67,7 +67,7 @@ const (
 
 // PutVerdict says what an open store must do with b.
 func (m *Model) PutVerdict(b Blk) putVerdict {
-	long := len(b.Cid.Bytes()) > m.Cfg.EffMaxIdxCid()
+	long := uint64(len(b.Cid.Bytes())) > m.Cfg.EffMaxIdxCid()
 	if IsIdentity(b.Cid) && !m.Cfg.StoreID {
 		// IdStore rule: putting an identity block is a successful no-op, whatever its
 		// length - it is never stored, so the index CID size limit does not concern it.
